@@ -117,6 +117,10 @@ def gen_rpc(rnd):
             else:
                 ops.append((c, ('publish', rnd.choice([b'A', b'N']) + b'%d%d' % (t, j), False)))
         threads.append(ops)
+    if rnd.random() < 0.35:
+        # a consumer whose callback issues a synchronous call of its own (cancels itself)
+        c = rnd.randrange(1, nchan + 1)
+        threads.append([(c, ('cbcancel', b'cb', rnd.random() < 0.6))])
     return dict(nchan=nchan, confirm=confirm, threads=threads)
 
 
